@@ -30,6 +30,7 @@ TOL_SPEC = {"float64": 1e-6, "float32": 1e-3}
 SIG_CLAMP = "C19.relaxed.csample_clamped_probs"
 SIG_STNAN = "C19.straight_through.nan_at_neg_inf_logit"
 SIG_LOGSHAPE = "C19.direct.is_log_leading_axis"
+SIG_IMHNINF = "C19.imh.ninf_ratio_poisons_chain"
 
 
 def _dy(rng, lo, hi, den):
@@ -534,6 +535,27 @@ class C19(PropertyCheck):
                    "init": rng.choice([None, rng.choice(sup)]),
                    "draws": [rng.choice(sup) for _ in range(N + 1)],
                    "us": [fs(rng.choice(us)) for _ in range(N)], "f": _table(rng, M)}
+        # ---- IMH with a density that VANISHES on part of the proposal's support (what find_initial_sample is
+        # for): proposals outside the density's support have log-ratio -inf; they are rejected, and the chain
+        # must go on from the state it is in (audit: the earlier stream never proposed such a point)
+        for i in range(40 if not big else 400):
+            M = rng.choice([3, 3, 4])
+            q = [Fr(1, M)] * M if rng.random() < 0.5 else None
+            while q is None or sum(q) != 1:
+                q = [Fr(rng.randint(1, 5), 8) for _ in range(M)]
+                q[-1] = 1 - sum(q[:-1])
+                if q[-1] <= 0:
+                    q = None
+            nsup = rng.randint(1, M - 1) if i % 8 else M          # every 8th: full support (both variants agree)
+            sup = sorted(rng.sample(range(M), nsup))
+            p = [fs(Fr(rng.randint(1, 8), 8)) if j in sup else None for j in range(M)]
+            N = rng.randint(2, 6)
+            draws = [rng.randrange(M) for _ in range(N)]
+            if i % 3 == 0 and nsup < M:      # an impossible proposal early, possible ones after it
+                draws[0] = rng.choice([j for j in range(M) if j not in sup])
+            yield {"kind": "imh_support", "q": [fs(x) for x in q], "p": p, "N": N, "burn_in": rng.randrange(N),
+                   "init": rng.choice(sup), "draws": draws, "us": [fs(rng.choice(us)) for _ in range(N)],
+                   "f": _table(rng, M)}
         # ---- relaxation-based estimators; p = k/16 for EVERY k in 0..16 (p = 0 and p = 1 included: the
         # estimate must then be f(0) resp. f(1) exactly)
         ks_all = list(range(0, 17))
@@ -1462,6 +1484,95 @@ class C19(PropertyCheck):
         out["aliased"] = self._alias_obs(case, logs)
         out["twin"] = run(True) if self._has_twin(case) else None
         return out
+
+    # ---- IMH, density vanishing on part of the proposal's support
+    def _imh_support_setup(self, case):
+        import torch
+        M = len(case["q"])
+        prop = torch.distributions.Categorical(probs=torch.tensor([float(F(x)) for x in case["q"]], dtype=torch.float64))
+        logp = torch.tensor([float("-inf") if x is None else math.log(float(F(x))) for x in case["p"]],
+                            dtype=torch.float64)
+        ratios = (logp - prop.log_prob(torch.arange(M))).tolist()
+        return prop, logp, ratios
+
+    def _impl_imh_support(self, case):
+        import torch
+        from pydrobert.torch.estimators import IndependentMetropolisHastingsEstimator as IMH
+        prop, logp, _ = self._imh_support_setup(case)
+
+        class Dens:
+            def log_prob(self, b):
+                return logp[b]
+        ftab = torch.tensor([float(F(x)) for x in case["f"]], dtype=torch.float64)
+        states = []
+
+        def func(b):
+            states.append(int(b.reshape(-1)[0].item()))
+            return ftab[b]
+        draws = list(case["draws"])
+
+        def sample(shape=()):
+            return torch.tensor([draws.pop(0)])
+        us = torch.tensor([float(F(x)) for x in case["us"]], dtype=torch.float64)
+
+        def rand(*a, **k):
+            return us.clone()
+        with fam.patched(prop, sample=sample), fam.torch_patched(rand=rand):
+            est = IMH(prop, func, case["N"], Dens(), case["burn_in"], torch.tensor([case["init"]]), 3, False)
+            v = est()
+        return {"v": fs(v.item()), "states": states, "consumed": case["N"] - len(draws)}
+
+    def _req_imh_support(self, case):
+        _, _, ratios = self._imh_support_setup(case)
+        return {"op": "c19.imh_support", "case": {
+            "ratios": [None if r == float("-inf") else fs(r) for r in ratios],
+            "f": case["f"], "burn_in": case["burn_in"], "init": case["init"], "draws": case["draws"],
+            "lus": self._lus(case)}}
+
+    def _imh_support_margin_ok(self, case):
+        _, _, ratios = self._imh_support_setup(case)
+        fin = [r for r in ratios if r != float("-inf")]
+        for a in fin:
+            for b in fin:
+                for l in self._lus(case):
+                    if l is not None and abs((a - b) - float(F(l))) < 1e-9:
+                        return False
+        return True
+
+    def _cmp_imh_support(self, case, impl, model):
+        if not self._imh_support_margin_ok(case):
+            return []
+        b = case["burn_in"]
+        # the model has both book-keepings; which one the tree under test has is the predicate's business
+        for variant in ("fixed", "pinned"):
+            m = model[variant]
+            if impl["states"] == m["chain"][b:] and close(impl["v"], m["v"]):
+                return []
+        return [f"imh_support: kept states {impl['states']} estimate {impl['v']}; model (repaired) "
+                f"{model['fixed']['chain'][b:]} {model['fixed']['v']}, (pinned) {model['pinned']['chain'][b:]} "
+                f"{model['pinned']['v']}"]
+
+    def _pred_imh_support(self, case, impl, model):
+        if not self._imh_support_margin_ok(case):
+            return []
+        b = case["burn_in"]
+        fails = []
+        if impl["consumed"] != case["N"]:
+            fails.append((f"IMH consumed {impl['consumed']} proposals for mc_samples={case['N']}", None))
+        sup = [j for j, x in enumerate(case["p"]) if x is not None]
+        want = model["fixed"]["chain"][b:]
+        if any(st not in sup for st in impl["states"]):
+            fails.append((f"IMH chain entered a state of density zero: {impl['states']} (support {sup})", None))
+        if impl["states"] != want or not close(impl["v"], model["fixed"]["v"]):
+            frozen = (impl["states"] == model["pinned"]["chain"][b:] and close(impl["v"], model["pinned"]["v"])
+                      and any(d not in sup for d in case["draws"]))
+            fails.append((f"IMH with a density that vanishes on part of the proposal's support: kept states "
+                          f"{impl['states']} (estimate {float(F(impl['v']))}), expected {want} "
+                          f"({float(F(model['fixed']['v']))}): after a proposal outside the support "
+                          f"(draws {case['draws']}, support {sup}) the chain "
+                          + ("is frozen - last_ratio became NaN (0 * -inf)" if frozen else "differs"),
+                          SIG_IMHNINF if frozen else None))
+        return fails
 
     @staticmethod
     def _lus_of(us):
@@ -2864,6 +2975,8 @@ class C19(PropertyCheck):
             return fam.n_points(case["proposal"]) ** case["N"] >= 4
         if k == "imh":
             return case["N"] >= 2
+        if k == "imh_support":
+            return any(case["p"][d] is None for d in case["draws"])
         if k == "srswor":
             return any(0 < e["given"] < e["total"] for e in case["elems"])
         if k in ("binom",):
@@ -2881,6 +2994,11 @@ class C19(PropertyCheck):
                   f"{'cv' if has_cv else 'nocv'}{'-detached' if case['cv_mean_detached'] else ''}"]
         elif k == "is":
             t += [f"is:{case['proposal']['fam']}/N={case['N']}/{'same' if case['density'] == 'same' else 'other'}"]
+        elif k == "imh_support":
+            out = [i for i, d in enumerate(case["draws"]) if case["p"][d] is None]
+            t += ["imh_support:" + ("no proposal outside the support" if not out else
+                                    f"first outside proposal at step {min(out[0], 3)}{'+' if out[0] >= 3 else ''}"
+                                    + ("/before the kept steps" if out[0] < case["burn_in"] else ""))]
         elif k == "imh":
             t += [f"imh:{'same' if case['density'] == 'same' else 'other'}/"
                   f"{'supplied' if case['init'] is not None else 'drawn'}",
